@@ -15,6 +15,7 @@ func init() {
 	verifRegister("HarnessC04_Mutual", HarnessC04_Mutual)
 	verifRegister("HarnessC04_TailCall", HarnessC04_TailCall)
 	verifRegister("HarnessC04_RefParam", HarnessC04_RefParam)
+	verifRegister("HarnessC04_TailCallNested", HarnessC04_TailCallNested)
 }
 
 type c04Faults struct {
@@ -383,5 +384,85 @@ func HarnessC04_RefParam() {
 	ctx := NewMPCalContext(tla.MakeNumber(1), arch, EnsureArchetypeRefParam("x", x), EnsureArchetypeValueParam("y", tla.MakeNumber(y0)))
 	verifAssert(ctx.Run() == nil, "run terminates normally")
 	verifAssert(x.value.IsNumber() && x.value.AsNumber() == x0+1+y0, "the referenced variable received both updates, exactly once each despite aborted attempts")
+	verifReach("end")
+}
+
+// ---- template 5: a tail-call chain underneath a live activation of the same procedure ----
+//
+//	procedure W(n, tail) {
+//	  w1: if (~tail) { call W(depth, TRUE) }            \* returns to w2 of THIS activation
+//	      else if (n = 0) { return } else { call W(n - 1, TRUE); return }   \* = tail call
+//	  w2: seen := n; return }                           \* must see this activation's own n, not the chain's
+//	archetype A { a1: call W(n0, FALSE); a2: Done }
+func HarnessC04_TailCallNested() {
+	n0 := verifNondetInt32("n")
+	verifAssume(n0 >= 100 && n0 < 1000)
+	depth := int32(verifChoose("depth", 4))
+	faults := &c04Faults{budget: verifChoose("aborts", 2)}
+	seen := NewLocalArchetypeResource(tla.MakeNumber(-1))
+	procs := MakeMPCalProcTable(MPCalProc{Name: "W", Label: "W.w1", StateVars: []string{"W.n", "W.tail"},
+		PreAmble: func(ArchetypeInterface) error { return nil }})
+	sections := []MPCalCriticalSection{
+		{Name: "A.a1", Body: func(iface ArchetypeInterface) error {
+			return iface.Call("W", "A.a2", tla.MakeNumber(n0), tla.ModuleFALSE)
+		}},
+		{Name: "A.a2", Body: func(iface ArchetypeInterface) error {
+			verifAssert(c04StackDepth(iface) == 0, "nested tail calls: stack empty after the final return")
+			verifReach("done")
+			return ErrDone
+		}},
+		{Name: "W.w1", Body: func(iface ArchetypeInterface) error {
+			n, err := c04Num(iface, "W.n")
+			if err != nil {
+				return err
+			}
+			tail, err := iface.Read(iface.RequireArchetypeResource("W.tail"), nil)
+			if err != nil {
+				return err
+			}
+			switch {
+			case !tail.AsBool():
+				verifAssert(c04StackDepth(iface) == 1, "the outer activation runs on one frame")
+				err = iface.Call("W", "W.w2", tla.MakeNumber(depth), tla.ModuleTRUE)
+			case n == 0:
+				verifAssert(c04StackDepth(iface) == 2, "a tail-call chain under a live activation keeps exactly one frame of its own")
+				err = iface.Return()
+			default:
+				verifAssert(c04StackDepth(iface) == 2, "a tail-call chain under a live activation keeps exactly one frame of its own")
+				err = iface.TailCall("W", tla.MakeNumber(n-1), tla.ModuleTRUE)
+			}
+			if err != nil {
+				return err
+			}
+			if faults.abortHere("abort.w1") {
+				return ErrCriticalSectionAborted
+			}
+			return nil
+		}},
+		{Name: "W.w2", Body: func(iface ArchetypeInterface) error {
+			n, err := c04Num(iface, "W.n")
+			if err != nil {
+				return err
+			}
+			tail, err := iface.Read(iface.RequireArchetypeResource("W.tail"), nil)
+			if err != nil {
+				return err
+			}
+			verifAssert(n == n0 && !tail.AsBool(), "when the tail-call chain returns, the enclosing activation sees its own parameters again")
+			h, err := iface.RequireArchetypeResourceRef("A.seen")
+			if err != nil {
+				return err
+			}
+			if err := iface.Write(h, nil, tla.MakeNumber(n)); err != nil {
+				return err
+			}
+			return iface.Return()
+		}},
+	}
+	arch := MPCalArchetype{Name: "A", Label: "A.a1", RequiredRefParams: []string{"A.seen"},
+		JumpTable: MakeMPCalJumpTable(append(sections, c04Errors("W")...)...), ProcTable: procs, PreAmble: func(ArchetypeInterface) {}}
+	ctx := NewMPCalContext(tla.MakeNumber(1), arch, EnsureArchetypeRefParam("seen", seen))
+	verifAssert(ctx.Run() == nil, "run terminates normally")
+	verifAssert(seen.value.IsNumber() && seen.value.AsNumber() == n0, "the enclosing activation's parameter survives the tail-call chain")
 	verifReach("end")
 }
